@@ -1088,6 +1088,7 @@ func (e *Engine) addPEGObligations() {
 	e.languageObligations()
 	e.stickyFlagObligations()
 	e.positionWriterObligations()
+	e.generatorOwnership()
 	e.representationPrivacy()
 	e.nativeTableObligations()
 }
@@ -1354,6 +1355,77 @@ func (e *Engine) representationPrivacy() {
 		"every method of ValueMap has a contract that requires and re-establishes the representation invariant (`holds`)", "without `holds`: "+strings.Join(lacking, ", "))
 	e.frameObl("frame:ValueMap/representation-private", []string{"C12", "C02"}, len(bad) == 0, "",
 		"ValueMap's tables (read, dirty, misses, mu) are touched only by ValueMap's own methods, so its contracts over the abstract content hold for every client", strings.Join(bad, "; "))
+}
+
+// generatorOwnership (C06): a context's generator is installed by Init (from the seed bytes) or handed down from the
+// parent when a sub-VM is set up (`vm.RandSrc = <parent>.RandSrc`); running programs only draws from it.  No function
+// reachable from Parse, RunAfterParsed or evaluate assigns a Context's RandSrc with anything but another context's
+// RandSrc — re-deriving the generator on the run path restarts the sequence and breaks resumption from GetCurSeed.
+func (e *Engine) generatorOwnership() {
+	info := e.P.Info
+	var roots []*types.Func
+	for _, k := range []string{"(*Context).Parse", "(*Context).RunAfterParsed", "(*Context).evaluate"} {
+		if fi := e.P.Funcs[k]; fi != nil && fi.Obj != nil {
+			roots = append(roots, fi.Obj)
+		}
+	}
+	// Init is the designated installer (its own contract says when it builds a generator); what only Init reaches is
+	// Init's business: the walk does not go through it
+	var initObj *types.Func
+	if fi := e.P.Funcs["(*Context).Init"]; fi != nil {
+		initObj = fi.Obj
+	}
+	reach := map[*types.Func]bool{}
+	var walk func(f *types.Func)
+	walk = func(f *types.Func) {
+		if reach[f] || f == initObj {
+			return
+		}
+		reach[f] = true
+		if fe := e.effects.Local[f]; fe != nil {
+			for c := range fe.Callees {
+				walk(c)
+			}
+		}
+	}
+	for _, r := range roots {
+		walk(r)
+	}
+	var bad []string
+	for f := range reach {
+		fi := e.P.FuncByObj[f]
+		if fi == nil || fi.Decl == nil || fi.Decl.Body == nil || fi.File == ContractsFileName {
+			continue
+		}
+		ast.Inspect(fi.Decl.Body, func(n ast.Node) bool {
+			as, ok := n.(*ast.AssignStmt)
+			if !ok {
+				return true
+			}
+			for i, l := range as.Lhs {
+				se, ok := l.(*ast.SelectorExpr)
+				if !ok || se.Sel.Name != "RandSrc" {
+					continue
+				}
+				if t := info.TypeOf(se.X); t == nil || strings.TrimPrefix(e.typeStr(t), "*") != "Context" {
+					continue
+				}
+				fromParent := false
+				if i < len(as.Rhs) {
+					if rs, ok := as.Rhs[i].(*ast.SelectorExpr); ok && rs.Sel.Name == "RandSrc" {
+						fromParent = true
+					}
+				}
+				if !fromParent {
+					bad = append(bad, fi.Key+" assigns "+e.exprStr(l)+" at "+e.posStr(l.Pos()))
+				}
+			}
+			return true
+		})
+	}
+	sort.Strings(bad)
+	e.frameObl("frame:run-path/keeps-generator", []string{"C06"}, len(bad) == 0 && len(roots) == 3, "",
+		"no function reachable from Parse / RunAfterParsed / evaluate installs a generator in a context other than by handing the parent's down to a sub-VM", strings.Join(bad, "; "))
 }
 
 // stickyFlagObligations (C07): ParserData.codeOverflow records that instructions were dropped; Parse turns it into an
